@@ -526,6 +526,18 @@ class Sx:
             if sx_strip(f)[0] == 'closure' and tup[0] == 'agg':
                 r = self.apply(f, list(tup[3]), st)
                 if r is not None: return r
+        if item in ('eq', 'ne') and 'PartialEq' in (ri.get('trait') or '') and len(args) == 2 and re.match(r'^<std::option::Option<', name):
+            # `opt == Some(&1.0)`: equal variants and, for Some, equal payloads
+            a, b_ = (sx_strip(self.deref(x, st)) for x in args)
+            ga, gb = self.good(a, st), self.good(b_, st)
+            if ga is not None and gb is not None:
+                r = None
+                if ga != gb: r = False
+                elif ga is False: r = True
+                else:
+                    pa, pb = self.conc(self.payload(a), st), self.conc(self.payload(b_), st)
+                    if pa is not None and pb is not None: r = (pa == pb)
+                if r is not None: return ('const', 'true' if r == (item == 'eq') else 'false')
         if item in ('eq', 'ne') and 'PartialEq' in (ri.get('trait') or '') and len(args) == 2:
             a = self.conc_struct(self.deref(args[0], st), st); b_ = self.conc_struct(self.deref(args[1], st), st)       # tuples of known bools / numbers
             if a is not None and b_ is not None: return ('const', 'true' if (a == b_) == (item == 'eq') else 'false')
@@ -635,6 +647,7 @@ class Sx:
         if item in SX_IDENT and args:
             return self.deref(args[0], st) if args[0][0] in ('ref', 'lref') else args[0]
         tr = ri.get('trait') or ''
+        if len(args) == 2 and item == 'partition' and tr == 'std::iter::Iterator': self.partitioned(node, st)
         if args and item == 'next' and (tr == 'std::iter::Iterator' or name.endswith('std::iter::Iterator>::next')):
             r = self.table_item(node, st)
             if r is not None: return r
@@ -685,6 +698,24 @@ class Sx:
         into an unknown collection, ...): recorded as event ('yield', value | None, bb, flags, consumer name, base)"""
         v, flags, cur, fn = self.chain(node, it, st)
         if fn: st.events.append(('yield', v, node[4], flags, node[2], cur))
+
+    def partitioned(self, node, st):
+        """`it.partition(pred)`: the result is the pair (items for which pred holds, the others) -- component 0 / 1 of the call's
+        value.  The predicate is applied to ONE generic item of the (adaptor chain over the) base; the event
+        ('partition', call node, True / False / None = which side that item goes to, base, item) lets a rule read the bulk form
+        like the loop `for x in base { if pred(&x) { yes.insert(x) } else { no.insert(x) } }`"""
+        it, pred = node[3]
+        v, flags, cur, fn = self.chain(node, it, st)
+        if not fn:                                              # no adaptor with a function in front: the item is the base's
+            cur = sx_strip(it)
+            while cur[0] == 'call' and cur[3] and cur[1] in SX_ADAPTORS: cur = sx_strip(cur[3][0])
+            v = ('field', ('call', 'next', '<partition item>', (cur,), node[4], node[5]), '0', 'payload'); flags = ()
+        side = None
+        if v is not None and not flags:
+            r = self.apply(pred, [('ref', v)], st)
+            c = self.conc(r, st) if r is not None else None
+            if isinstance(c, bool): side = c
+        st.events.append(('partition', node, side, cur, v))
 
     def table_item(self, node, st):
         """`it.next()` where `it` walks a table written out in the code (`[a, b, c]`, by value or through iter()): the n-th
@@ -1352,11 +1383,47 @@ class FinishCase(SxOracle):
         return None
 
 
+def finish_bulk(ctx, rule, b):
+    """the same clause when the integer set is split in one go: `integer.partition(pred)` (possibly after mem::take / drain /
+    into_iter), the side for which pred holds added to `binary`, the other side stored back as `integer`.  For one column with
+    upper bound u and lower bound l: pred holds iff u == 1 and l is absent or 0; the yes-side (component 0) goes into binary and
+    only there, the no-side (component 1) becomes integer."""
+    probs = []; n = 0
+    for u in (1.0, 2.0, None):
+        for l in (None, 0.0, 3.0):
+            orc = FinishCase(u, l, 'integer', -99)
+            ps = sx_paths(ctx, rule, 'T-BRANCHFX', b, orc)
+            if ps is None: return
+            sx = Sx(ctx, b, orc)
+            promote = (u == 1.0 and l in (None, 0.0)); case = 'u=%s l=%s' % (u, l)
+            rets = [p for p in ps if p.end == 'return' and p.value is not None]
+            if not rets: probs.append('%s: no result' % case)
+            for p in rets:
+                n += 1
+                parts = [e for e in p.events if e[0] == 'partition' and sx_table_of(e[3][3][0] if e[3][0] == 'call' and e[3][1] in ('take', 'replace', 'drain') and e[3][3] else e[3]) == 'integer']
+                if len(parts) != 1: probs.append('%s: the integer columns are not split by one partition' % case); continue
+                _, node, side, base, item = parts[0]
+                yes = ('field', node, '0'); no = ('field', node, '1')
+                def comp(v):
+                    v = sx_strip(v)
+                    return v[2] if v[0] == 'field' and v[1] == node and v[2] in ('0', '1') else None
+                if side is None: probs.append('%s: the test of the partition cannot be evaluated' % case); continue
+                if side != promote: probs.append('%s: %s' % (case, 'not moved from integer to binary' if promote else 'moved to binary'))
+                to_bin = [comp(e[3][1]) for e in p.events if e[0] == 'call' and e[1] in ('extend', 'insert') and len(e[3]) >= 2 and sx_table_of(e[3][0]) == 'binary']
+                kept = comp(sx.field(sx_strip(p.value), 'integer', MPS))
+                if to_bin != ['0']: probs.append('%s: binary receives %s of the partition, expected the columns for which the test holds' % (case, to_bin or 'nothing'))
+                back = [comp(e[3][1]) for e in p.events if e[0] == 'call' and e[1] == 'extend' and len(e[3]) >= 2 and sx_table_of(e[3][0]) == 'integer']
+                if kept != '1' and back != ['1']: probs.append('%s: the columns for which the test does not hold are not what remains in integer' % case)
+    ctx.check(n > 0 and not probs, rule, 'T-BRANCHFX', b.name, 'finish() must turn integer columns with u == 1 and l absent or 0 (and only those) into binaries: %s' % '; '.join(sorted(set(probs))[:4]), b.site())
+
+
 def finish_rules(ctx, b):
     """an integer column with u == 1 and l absent or 0 becomes binary; nothing else does"""
     rule = 'C17.defaults/finish/integer-0-1-is-binary'
     def is_bin_insert(c): return c.item == 'insert' and 'HashSet::<' in c.name and mps_table_of(b, c.args[0]) == 'binary'
     loops = sorted([lo for lo in T.for_loops(b) if any(c.bb in lo[4] and is_bin_insert(c) for c in b.calls)], key=lambda lo: -len(lo[4]))
+    if not loops and any(c.item == 'partition' and 'Iterator' in (c.trait or '') for c in b.calls):
+        finish_bulk(ctx, rule, b); return
     if not loops:
         ctx.bad(rule, 'T-BRANCHFX', b.name, 'finish() has no loop over the bounded columns that inserts into `binary`', b.site()); return
     nextc, header, some_bb, none_bb, blocks = loops[0]
